@@ -28,6 +28,15 @@ Element-wise vectors whose ELEMENTS DIFFER (correspondence + oracle): vector exp
         position (first … last), with uniform arithmetic and matmul wrappers on top, in every element-scanning
         consumer (c @ v, v @ c, dot in both orders, quadratic_form, VectorSum / .sum(), norms, single elements), other
         lengths and deep chains; a failing input records the recipe and is replayed through the same API calls.
+Caller-owned containers × mutation histories (oracle only): VectorExpression / MatrixExpression built directly from the
+        CALLER'S container (list, list subclass, object array, user Sequence, deque, tuple / generator over a list; lists of
+        lists, tuple of lists, list of tuples), every scalar consumer built on it (c @ v, v @ c, LinearCombination, dot in
+        both orders, QuadraticForm, sums, norms, matmul rows, wrappers, deep chains, MatrixSum) and classified through
+        every channel; then the caller refills its container (item / slice assignment, clear + extend, append; one
+        position or all; elements of higher degree / non-polynomial ones) or changes its coefficient arrays in place,
+        and the same object, a new expression on the same vector and a second vector made from the same container are
+        classified again: every finite claim is judged against the function the expression denotes AT THAT TIME (own
+        interpreters over the current tree, and finite differences of what e.evaluate() returns now).
 """
 from __future__ import annotations
 
@@ -71,7 +80,9 @@ ASSUMPTIONS = [
     "(ℝ totalises it to 0, NumPy gives inf/nan); float rounding is not modelled",
     "scalar constants only: array-valued Constant nodes (incl. 0-d arrays made from NumPy integer scalars) are outside "
     "the Lean syntax; the real code classifies powers with such exponents as non-polynomial (conservative)",
-    "expression trees are immutable after construction (the per-node _degree cache is never invalidated by the code); "
+    "expression trees are immutable after construction (the per-node _degree cache is never invalidated by the code; that the "
+    "caller cannot reach into a tree through a container it handed to VectorExpression / MatrixExpression is checked on the "
+    "real code by the caller-owned-container × mutation-history family); "
     "the one mutable input, the value of a Parameter, is covered on the real code only (parameter × history family: a "
     "classification that depends on a parameter's value must still hold after Parameter.set)",
     "lru_cache of _compute_degree_cached is a transparent memo (keyed by the object itself) and is not modelled",
@@ -1875,6 +1886,454 @@ def replay_param_history(f) -> bool:
     return fail is None
 
 
+# ----------------------------------------------------------------------------- caller-owned containers × mutation histories
+#
+# The expression tree is immutable ONLY IF every public constructor that takes a container of elements (VectorExpression,
+# MatrixExpression) or a coefficient array (LinearCombination / c @ v, QuadraticForm, matmul) keeps the caller from
+# reaching into it afterwards.  The family plays the ordinary "scratch buffer" idiom on every kind of container the caller
+# may own: build the vector / matrix from the caller's container, build a scalar expression on it, classify it (so that
+# every cache holds an answer), let the CALLER refill its container with elements of higher degree / non-polynomial
+# elements (or change its coefficient arrays in place), classify again.  Either semantics of the constructor is fine
+# (copy: value and degree both unchanged; adopt: both follow) — but a finite degree reported at any time must be
+# justified by the function the expression evaluates to AT THAT TIME.  Oracle only; two independent criteria:
+# the harness's own interpreters over the tree as it is now (`degree_oracle`) and finite differences of what
+# `e.evaluate()` of the real code returns now (`evaluate_degree_oracle`).
+
+ALIAS_LOW = ("aff", "shift", "scaled", "var", "const", "other", "sq")
+ALIAS_HIGH = ("cube", "sin", "p5", "exp", "sq", "aff2", "xy", "dotXY", "lcsin", "cos2")
+ALIAS_INIT = (("aff", "shift", "scaled"), ("var", "var", "var"), ("const", "var", "aff"), ("sq", "var", "shift"), ("other", "scaled", "const"))
+ALIAS_VECTOR_CONTAINERS = ("list", "list-subclass", "object-array", "user-sequence", "deque", "tuple-of-a-list", "generator-over-a-list")
+ALIAS_MATRIX_CONTAINERS = ("list-of-lists", "tuple-of-lists", "list-of-tuples", "list-of-list-subclasses")
+ALIAS_OPS = ("setitem", "slice", "clear-extend", "setitem-all", "append")
+
+
+def alias_elem(name, U, i):
+    """element expression `name` for position i (a fresh object on every call)"""
+    from optyx.core.expressions import Constant
+    from optyx.core import vectors as V
+    from optyx.core.functions import sin, exp, cos
+
+    n = U.n
+    xi, yi, a = U.x[i % n], U.y[i % n], U.scalars[0]
+    k = float(i % 3 + 1)
+    if name == "aff": return 2.0 * xi + k
+    if name == "shift": return xi - 3.0
+    if name == "scaled": return 0.5 * xi
+    if name == "var": return xi
+    if name == "const": return Constant(k)
+    if name == "other": return a * 1.0
+    if name == "sq": return xi ** 2
+    if name == "cube": return xi ** 3
+    if name == "sin": return sin(xi)
+    if name == "p5": return (xi + 1.0) ** 5
+    if name == "exp": return exp(xi)
+    if name == "aff2": return (2.0 * xi + 1.0) ** 2 * 3.0
+    if name == "xy": return xi * yi
+    if name == "dotXY": return V.DotProduct(U.x, U.y) + xi
+    if name == "lcsin": return np.array([1.0, 2.0]) @ V.VectorExpression([sin(yi), xi])
+    if name == "cos2": return 2.0 * cos(xi + yi) - 1.0
+    raise KeyError(name)
+
+
+class _AliasList(list):
+    pass
+
+
+def _alias_user_sequence(items):
+    import collections.abc
+
+    class CallerSequence(collections.abc.Sequence):
+        def __init__(self, data):
+            self.data = data
+
+        def __len__(self):
+            return len(self.data)
+
+        def __getitem__(self, i):
+            return self.data[i]
+
+    return CallerSequence(items)
+
+
+class AliasBuf:
+    """the caller's container of element expressions: `container` is what is handed to the constructor, `handle` is
+    the mutable object the caller keeps and refills afterwards; `names` is the harness's own bookkeeping"""
+
+    def __init__(self, kind, names, U):
+        import collections
+
+        self.kind, self.U = kind, U
+        self.names = list(names)
+        elems = [alias_elem(nm, U, i) for i, nm in enumerate(names)]
+        self.handle = list(elems)
+        if kind == "list":
+            self.container = self.handle
+        elif kind == "list-subclass":
+            self.handle = _AliasList(elems)
+            self.container = self.handle
+        elif kind == "object-array":
+            self.handle = np.empty(len(elems), dtype=object)
+            for i, t in enumerate(elems):
+                self.handle[i] = t
+            self.container = self.handle
+        elif kind == "user-sequence":
+            self.container = _alias_user_sequence(self.handle)
+        elif kind == "deque":
+            self.handle = collections.deque(elems)
+            self.container = self.handle
+        elif kind == "tuple-of-a-list":
+            self.container = tuple(self.handle)
+        elif kind == "generator-over-a-list":
+            self.container = (t for t in self.handle)
+        else:
+            raise KeyError(kind)
+
+    def again(self):
+        """the container as the caller would hand it over a second time"""
+        if self.kind == "tuple-of-a-list":
+            return tuple(self.handle)
+        if self.kind == "generator-over-a-list":
+            return (t for t in self.handle)
+        return self.container
+
+    def mutate(self, m):
+        U, h = self.U, self.handle
+        op = m["op"]
+        if op == "restore":
+            op, m = "slice", {"elems": list(m["elems"])}
+        new = {int(p): nm for p, nm in zip(m.get("pos", range(len(m["elems"]))), m["elems"])}
+        if op == "append":
+            if hasattr(h, "append"):
+                i = len(h)
+                h.append(alias_elem(m["elems"][0], U, i))
+                self.names.append(m["elems"][0])
+            return
+        if op == "setitem":
+            for p, nm in new.items():
+                p = p % len(h)
+                h[p] = alias_elem(nm, U, p)
+                self.names[p] = nm
+            return
+        full = list(self.names)
+        for p, nm in new.items():
+            full[p % len(full)] = nm
+        elems = [alias_elem(nm, U, i) for i, nm in enumerate(full)]
+        if op == "slice" and isinstance(h, list):
+            h[:] = elems
+        elif op == "clear-extend" and hasattr(h, "clear"):
+            h.clear()
+            h.extend(elems)
+        else:                       # "setitem-all", and the fall-back of containers without slices / clear
+            for i, t in enumerate(elems):
+                h[i] = t
+        self.names = full
+
+
+class AliasMatrixBuf:
+    """rows × cols caller-owned nested container for MatrixExpression; cells are refilled through the inner row objects
+    (`rows[r][c] = t`) where those are mutable, whole rows are replaced through the outer one (`rows[r] = [...]`)"""
+
+    def __init__(self, kind, names, U, cols=2):
+        self.kind, self.U, self.cols = kind, U, cols
+        self.names = list(names)
+        elems = [alias_elem(nm, U, i) for i, nm in enumerate(names)]
+        rows = [elems[i:i + cols] for i in range(0, len(elems), cols)]
+        inner = {"list-of-lists": list, "tuple-of-lists": list, "list-of-tuples": tuple, "list-of-list-subclasses": _AliasList}[kind]
+        rows = [inner(r) for r in rows]
+        self.handle = tuple(rows) if kind == "tuple-of-lists" else rows
+        self.container = self.handle
+
+    def again(self):
+        return self.container
+
+    def mutate(self, m):
+        U, h, cols = self.U, self.handle, self.cols
+        op = m["op"]
+        full = list(self.names)
+        if op == "restore":
+            full = list(m["elems"])
+        else:
+            for p, nm in zip(m.get("pos", range(len(m["elems"]))), m["elems"]):
+                full[int(p) % len(full)] = nm
+        changed = [i for i in range(len(full)) if full[i] != self.names[i]] if op != "restore" else list(range(len(full)))
+        inner_mutable = not isinstance(h[0], tuple)
+        outer_mutable = not isinstance(h, tuple)
+        cellwise = inner_mutable and (op in ("setitem", "setitem-all", "restore") or not outer_mutable)
+        if cellwise:
+            for i in changed:
+                h[i // cols][i % cols] = alias_elem(full[i], U, i)
+        elif outer_mutable:
+            for r in sorted({i // cols for i in changed}):
+                row = [alias_elem(full[i], U, i) for i in range(r * cols, (r + 1) * cols)]
+                if op == "slice" and inner_mutable:
+                    h[r][:] = row
+                else:
+                    h[r] = type(h[r])(row)
+        else:
+            return
+        self.names = full
+
+
+class AliasArrays:
+    """the caller's own coefficient arrays / matrices (fresh per expression), changed in place by the step "coef\""""
+
+    def __init__(self, n):
+        self.c = np.array(([2.0, -1.0, 0.5] * n)[:n])
+        self.Q = np.array([[(i + 1.0) * (j - 1.0) + (0.5 if i == j else 0.0) for j in range(n)] for i in range(n)])
+        self.A = np.array([[(i + 1.0) - 0.5 * j for j in range(n)] for i in range(n)])
+
+    def mutate(self):
+        n = len(self.c)
+        self.c[:] = ([0.0, 3.0, -2.0] * n)[:n]
+        self.Q[...] = self.Q.T * 0.5 + 2.0 * np.eye(n)
+        self.A[...] = self.A[::-1].copy() * 2.0 + 1.0
+
+
+def alias_consumers():
+    """(name, kind, build(v, U, arr)) — scalar expressions built on the vector / matrix made from the caller's container"""
+    from optyx.core.expressions import BinaryOp, Constant
+    from optyx.core import vectors as V
+    from optyx.core import matrices as M
+
+    def Yn(v, U):
+        """a VectorVariable of the length of v"""
+        L = len(v)
+        return U.y if L == U.n else (U.w[0:L] if L <= len(U.w) else None)
+
+    def chain(e, U, d):
+        y = U.scalars[1]
+        for i in range(d):
+            e = BinaryOp(e, Constant(float(i % 3)) if i % 2 else y, "+" if i % 3 else "-")
+        return e
+
+    return [
+        ("c@v", "vector", lambda v, U, a: a.c @ v),
+        ("v@c", "vector", lambda v, U, a: v @ a.c),
+        ("clist@v", "vector", lambda v, U, a: v @ a.c.tolist()),
+        ("LC(c,v)", "vector", lambda v, U, a: V.LinearCombination(a.c, v)),
+        ("v.dot(Y)", "vector", lambda v, U, a: v.dot(Yn(v, U))),
+        ("Y.dot(v)", "vector", lambda v, U, a: Yn(v, U).dot(v)),
+        ("v@Y", "vector", lambda v, U, a: v @ Yn(v, U)),
+        ("DotProduct(v,v)", "vector", lambda v, U, a: V.DotProduct(v, v)),
+        ("QuadraticForm(v,Q)", "vector", lambda v, U, a: M.QuadraticForm(v, a.Q)),
+        ("quadratic_form(v,Q)", "vector", lambda v, U, a: M.quadratic_form(v, a.Q)),
+        ("v.sum()", "vector", lambda v, U, a: v.sum()),
+        ("VectorSum(v)", "vector", lambda v, U, a: V.VectorSum(v)),
+        ("vector_sum(v)", "vector", lambda v, U, a: V.vector_sum(v)),
+        ("norm(v)**2", "vector", lambda v, U, a: V.norm(v) ** 2),
+        ("norm(v,1)", "vector", lambda v, U, a: V.norm(v, 1)),
+        ("(A@v)[0]", "vector", lambda v, U, a: M.matmul(a.A, v)[0]),
+        ("c@(A@v)", "vector", lambda v, U, a: a.c @ M.matmul(a.A, v)),
+        ("(A@v).sum()", "vector", lambda v, U, a: M.matmul(a.A, v).sum()),
+        ("2*(c@v)+a", "vector", lambda v, U, a: 2.0 * (a.c @ v) + U.scalars[0]),
+        ("(c@v)**2", "vector", lambda v, U, a: (a.c @ v) ** 2),
+        ("-(v.dot(Y))/4", "vector", lambda v, U, a: -(v.dot(Yn(v, U))) / 4.0),
+        ("a-QF(v,Q)", "vector", lambda v, U, a: U.scalars[0] - M.QuadraticForm(v, a.Q)),
+        ("c@[c@v,a,v.sum()]", "vector", lambda v, U, a: np.array([1.0, -1.0, 2.0]) @ V.VectorExpression([a.c @ v, U.scalars[0], v.sum()])),
+        ("deep450:c@v", "vector", lambda v, U, a: chain(a.c @ v, U, 450)),
+        ("deep450:late v.sum()", "vector", lambda v, U, a: BinaryOp(chain(U.scalars[0], U, 450), v.sum(), "+")),
+        # built eagerly from the elements held at construction (element-wise results, single elements): controls
+        ("(v+Y).sum()", "vector", lambda v, U, a: (v + Yn(v, U)).sum()),
+        ("c@(2*v)", "vector", lambda v, U, a: a.c @ (2.0 * v)),
+        ("v[0]+v[-1]", "vector", lambda v, U, a: v[0] + v[-1]),
+        ("MatrixSum(ME)", "matrix", lambda m, U, a: M.MatrixSum(m)),
+        ("2*MatrixSum(ME)+a", "matrix", lambda m, U, a: 2.0 * M.MatrixSum(m) + U.scalars[0]),
+        ("MatrixSum(ME)**2", "matrix", lambda m, U, a: M.MatrixSum(m) ** 2),
+        ("flatten().sum()", "matrix", lambda m, U, a: V.VectorExpression(m.flatten()).sum()),
+        ("ME[0,0]+ME[1,1]", "matrix", lambda m, U, a: m[0, 0] + m[1, 1]),
+    ]
+
+
+_ALIAS_CONSUMERS = None
+
+
+def _alias_consumer(name):
+    global _ALIAS_CONSUMERS
+    if _ALIAS_CONSUMERS is None:
+        _ALIAS_CONSUMERS = {c[0]: c for c in alias_consumers()}
+    return _ALIAS_CONSUMERS[name]
+
+
+def alias_history_cover(rng, full=False):
+    """specs (JSON-able) of the family: every consumer × every container kind × refills (operation × position × new
+    element, cycling so that every value of every axis occurs with every consumer) × what is asked first at each step"""
+    out = []
+    k = rng.randint(0, 10 ** 6)
+    chans = [c for c in PARAM_CHANNELS if c != "none"]
+    for cname, kind, _ in alias_consumers():
+        deep = cname.startswith("deep")
+        containers = ALIAS_VECTOR_CONTAINERS if kind == "vector" else ALIAS_MATRIX_CONTAINERS
+        for cont in containers:
+            control = cont in ("tuple-of-a-list", "generator-over-a-list")
+            reps = (len(ALIAS_OPS) * 2 if full else (3 if cont in ("list", "list-subclass", "list-of-lists") else 2)) if not control else 1
+            if deep:
+                reps = 1 if cont != "list" else 2
+            for _ in range(reps):
+                k += 1
+                n = (3, 3, 2, 5, 1, 4)[k % 6] if kind == "vector" else 4
+                init = [ALIAS_INIT[k % len(ALIAS_INIT)][i % 3] for i in range(n)]
+                op = ALIAS_OPS[k % len(ALIAS_OPS)]
+                pos = [(0, n - 1, n // 2, rng.randint(0, n - 1))[(k // 2) % 4]]
+                elems = [ALIAS_HIGH[(k // 3) % len(ALIAS_HIGH)]]
+                if k % 7 == 0:                                   # every position refilled
+                    pos = list(range(n))
+                    elems = [rng.choice(ALIAS_HIGH) for _ in range(n)]
+                ch0 = chans[k % len(chans)] if k % 9 else "none"  # "none": nothing was asked before the refill (control)
+                steps = [{"first": ch0}, {"mutate": {"op": op, "pos": pos, "elems": elems}, "first": rng.choice(PARAM_CHANNELS)}]
+                r = k % 4
+                if r == 0:
+                    steps.append({"mutate": {"op": "restore", "elems": list(init)}, "first": rng.choice(chans)})
+                elif r == 1:
+                    steps.append({"mutate": {"op": rng.choice(ALIAS_OPS[:4]), "pos": [rng.randint(0, n - 1)], "elems": [rng.choice(ALIAS_LOW + ALIAS_HIGH)]},
+                                  "first": rng.choice(chans)})
+                elif r == 2:
+                    steps.append({"mutate": {"op": "coef"}, "first": rng.choice(chans)})
+                T = rng.choice([400, 400, 0]) if deep else (400, 0, 3)[k % 3]
+                out.append({"consumer": cname, "kind": kind, "container": cont, "n": n, "init": init, "steps": steps, "T": T})
+    return out
+
+
+def evaluate_degree_oracle(e, d, U, rng, lines=4):
+    """the claim "degree ≤ d" judged by what `e.evaluate()` of the real code returns NOW: the (d+1)-th finite difference
+    of the values along lines (scale-aware tolerance; lines on which the function has no finite value are left out)"""
+    if d > 8:
+        return None
+    names = [v.name for v in U.all_vars()]
+    bad, worst = 0, None
+    for _ in range(lines):
+        base = {n: rng.randint(-8, 8) / 8 + 1 / 16 for n in names}
+        dirn = {n: rng.choice([-1.0, -0.5, 0.5, 1.0, 0.25]) for n in names}
+        pts = [{n: base[n] + j * 0.5 * dirn[n] for n in names} for j in range(d + 2)]
+        try:
+            with warnings.catch_warnings(), np.errstate(all="ignore"):
+                warnings.simplefilter("ignore")
+                vals = [float(np.asarray(e.evaluate(pt))) for pt in pts]
+        except Exception:  # noqa: BLE001   (no value on this line: nothing to difference)
+            continue
+        if not all(math.isfinite(v) for v in vals):
+            continue
+        scale = max(1.0, max(abs(v) for v in vals)) * (2 ** (d + 1))
+        diff = abs(binom_diff(vals))
+        if diff > 1e-7 * scale:
+            bad += 1
+            worst = worst or {"base": base, "dir": {n: 0.5 * dirn[n] for n in names}, "values": vals, "difference": diff}
+    if bad:
+        return {"what": f"reported degree {d} but the {d + 1}-th finite difference of the values e.evaluate() returns now is not 0 "
+                        f"on {bad} of {lines} lines", "mode": "evaluate", **worst}
+    return None
+
+
+def run_alias_history(spec, rng, verbose=False):
+    """play one history on the real code; returns (failure dict or None, any finite claim seen?, skipped reasons)"""
+    from optyx import Variable
+    from optyx.core import vectors as V
+    from optyx.core import matrices as M
+
+    n, kind = int(spec["n"]), spec["kind"]
+    U = gen.Universe(rng, nvec=n if kind == "vector" else 3)
+    _, _, consumer = _alias_consumer(spec["consumer"])
+    ctor = V.VectorExpression if kind == "vector" else M.MatrixExpression
+    Buf = AliasBuf if kind == "vector" else AliasMatrixBuf
+    skipped = []
+
+    def quiet(f, *a):
+        with warnings.catch_warnings():
+            warnings.simplefilter("ignore")
+            return f(*a)
+
+    try:
+        buf = Buf(spec["container"], spec["init"], U)
+        vec = quiet(ctor, buf.container)
+        arr = AliasArrays(n if kind == "vector" else 3)
+        e = quiet(consumer, vec, U, arr)
+    except Exception as ex:  # noqa: BLE001   (the API refused the container / the operand: nothing to classify)
+        return None, False, [f"construction raised {type(ex).__name__}"]
+    T = int(spec["T"])
+    probs = {"slack": Variable("slack")}
+    claimed = False
+    for si, step in enumerate(spec["steps"]):
+        m = step.get("mutate")
+        if m is not None:
+            if m["op"] == "coef":
+                arr.mutate()
+            else:
+                buf.mutate(m)
+        first = step["first"]
+        objs = [("the expression built before, same object", e, first, probs)]
+        if si > 0:
+            for label, mk in (("a new expression built now on the SAME vector / matrix object", lambda: consumer(vec, U, AliasArrays(len(arr.c)))),
+                              ("a second vector / matrix built now from the caller's container", lambda: consumer(ctor(buf.again()), U, AliasArrays(len(arr.c))))):
+                try:
+                    objs.append((label, quiet(mk), first if first != "none" else "degree", {"slack": probs["slack"]}))
+                except Exception as ex:  # noqa: BLE001
+                    skipped.append(f"later construction raised {type(ex).__name__}")
+        for label, obj, ch, pb in objs:
+            if ch == "none":
+                continue
+            claims = param_claims(obj, ch, T, pb)
+            for c, b in claims:
+                if isinstance(b, str):
+                    skipped.append(f"{c} {b}")
+            if verbose:
+                print(f"  step {si} [{label}] the caller's container holds {buf.names}: " + ", ".join(f"{c}={b}" for c, b in claims))
+            bounds = sorted({int(b) for _, b in claims if isinstance(b, (int, np.integer)) and not isinstance(b, bool)})
+            if not bounds:
+                continue
+            claimed = True
+            d = bounds[0]
+            r = None
+            try:
+                r = degree_oracle(obj, d, rng)
+            except Exception as ex:  # noqa: BLE001   (the harness's interpreter cannot walk this tree state: the value oracle decides)
+                skipped.append(f"oracle:tree interpreter raised {type(ex).__name__}")
+            if isinstance(r, str):
+                skipped.append("oracle:" + r[5:])
+                r = None
+            if r is None:
+                r = evaluate_degree_oracle(obj, d, U, rng)
+            if r is not None:
+                try:
+                    sx = ser(obj)
+                except Exception:  # noqa: BLE001
+                    sx = None
+                r.update({"what": f"{label}, step {si} of a history in which the caller refills its own container: " + r["what"],
+                          "family": "alias-history", "spec": spec, "step": si, "object": label, "degree": d,
+                          "claimed_by": [c for c, b in claims if not isinstance(b, str) and b is not None and int(b) == d],
+                          "caller_container_now": list(buf.names), "claims": [[c, b] for c, b in claims],
+                          "expr": sx if sx is None or len(sx) < 4000 else sx[:4000] + " …", "T": T})
+                return r, True, skipped
+    return None, claimed, skipped
+
+
+def check_alias_histories(specs, rep, rng):
+    for spec in specs:
+        fail, claimed, skipped = run_alias_history(spec, rng)
+        rep.evaluations += 1
+        for key in ("aliashist:" + spec["container"], "aliashist"):
+            rep.histogram[key] = rep.histogram.get(key, 0) + 1
+        for s in skipped:
+            rep.skipped["aliashist:" + s] = rep.skipped.get("aliashist:" + s, 0) + 1
+        if claimed:
+            rep.nontrivial.add(hash(repr(spec)))
+            rep.histogram["aliashist:finite degree claimed"] = rep.histogram.get("aliashist:finite degree claimed", 0) + 1
+        if fail is not None:
+            fail["tag"] = f"aliashist:{spec['consumer']}:{spec['container']}"
+            if sum(1 for f in rep.oracle_failures if f.get("family") == "alias-history") < 40:
+                rep.oracle_failures.append(fail)
+            rep.histogram["aliashist:FAILED"] = rep.histogram.get("aliashist:FAILED", 0) + 1
+
+
+def replay_alias_history(f) -> bool:
+    spec = f["spec"]
+    print(f"{spec['kind']} built from the caller's {spec['container']} holding {spec['init']}; expression {spec['consumer']}; threshold {spec['T']}")
+    for i, s in enumerate(spec["steps"]):
+        print(f"  step {i}: " + (f"caller does {s['mutate']}; " if s.get("mutate") else "") + f"first asked: {s['first']}")
+    fail, _, skipped = run_alias_history(spec, core.Rng(1), verbose=True)
+    if fail is not None:
+        print("  oracle:", {k: fail[k] for k in ("what", "claimed_by", "degree", "caller_container_now", "mode", "difference") if k in fail})
+    return fail is None
+
+
 # ----------------------------------------------------------------------------- the run
 
 
@@ -2002,6 +2461,10 @@ def run(ctx) -> core.Report:
                            "Parameters in every position (exponent, coefficient, divisor, base, additive; scalar and VectorParameter "
                            "elements; shallow, in vector nodes, in deep chains) × histories classify → Parameter.set → classify the "
                            "same and a fresh object through every channel, judged for the current parameter values; "
+                           "caller-owned containers (lists, subclasses, object arrays, user sequences, deques, nested lists / tuples) handed to "
+                           "VectorExpression / MatrixExpression × every scalar consumer × histories classify → the caller refills its container "
+                           "/ coefficient arrays → classify the same object, a new expression on the same vector and a second vector again, "
+                           "judged by the function denoted at that time (tree interpreters and e.evaluate() finite differences); "
                            "thresholds 400 / 0 / 3 / 10^9; non-trivial = distinct expressions with a finite degree")
     cases = list(cell_cover(rng)) + vector_operand_cover(rng) + magnitude_cover(rng) + typed_coef_cover(rng) + shared_cover(rng) + chain_cases(rng, thorough)
     cases += elementwise_cover(rng, extra=3000 if thorough else 600)
@@ -2016,6 +2479,8 @@ def run(ctx) -> core.Report:
     check_cases(cases, rep, rng, thorough)
     # Parameters inside the classified expression × histories of Parameter.set between classifications
     check_param_histories(param_history_cover(rng, full=thorough), rep, rng)
+    # caller-owned containers handed to the public constructors and refilled between classifications
+    check_alias_histories(alias_history_cover(rng, full=thorough), rep, rng)
     return rep
 
 
@@ -2074,6 +2539,9 @@ def search(ctx, rep):
     check_param_histories(param_history_cover(rng, full=not ctx.get("escalate")), prep, rng)
     if prep.oracle_failures:
         return prep.oracle_failures[0]
+    check_alias_histories(alias_history_cover(rng, full=True), prep, rng)
+    if prep.oracle_failures:
+        return prep.oracle_failures[0]
     pool += [(t, m) for t, m in cell_cover(rng)] + vector_operand_cover(rng) + magnitude_cover(rng) + typed_coef_cover(rng) + shared_cover(rng) + chain_cases(rng, False)
     pool += elementwise_cover(rng, extra=6000)
     for i in range(30000):
@@ -2127,6 +2595,8 @@ def replay(payload) -> bool:
     f = payload["failure"]
     if f.get("family") == "param-history":
         return replay_param_history(f)
+    if f.get("family") == "alias-history":
+        return replay_alias_history(f)
     if not f.get("expr") and not f.get("recipe"):
         print("no serialised expression in the replay file; tag:", f.get("tag"))
         return True
